@@ -28,11 +28,14 @@ ASSUMPTIONS = [
     "(0, |p2-p1|)); RadialClamp creation position turned about (center, normal) by t/r; CurveClamp curve.get_point(t), "
     "t in curve.bounds; ParametricSurfaceClamp function(u, v) inside bounds; PlaneClamp any point of the plane",
     "creation accuracy: the library finds the parameters with scipy.optimize.minimize(distance, tol=TOL=1e-7); L-BFGS-B "
-    "stops when the distance decreases by less than 1e-7*max(distance, 1), and the distance is a cone around an "
-    "on-manifold position, so the minimiser occasionally stalls: measured over 60 000 creations, scale 0.1..100, the "
-    "error is below 1e-6*max(1, scale) in 99.9 % of cases, worst 1.2e-5 (scale < 1), 8.1e-5 (scale 1-10), 5e-4 (scale "
-    "10-100, off-manifold). Tolerance 1e-3 + 1e-2*scale (>= 100x the worst); off the manifold at distance h the "
-    "stopping rule allows sqrt(2e-7*h*max(h, 1)) along the manifold (measured worst 52 % of that): 10x that is added",
+    "stops when the distance decreases by less than 1e-7*max(distance, 1). Created ON the manifold: line, plane and "
+    "curve clamps (the latter start from curve.get_closest_param, accurate to 1e-12 since its fix) were never worse "
+    "than 1e-7*scale in 25 000 creations at scale 0.1..100: tolerance 1e-5*(1 + scale). Surface clamps (two bounded "
+    "parameters, distance is a cone) occasionally stall: worst 1.2e-5 (scale < 1), 8.1e-5 (scale 1-10), 5e-4 (scale "
+    "10-100) in 20 000 creations: tolerance 1e-3 + 1e-2*scale. Created OFF the manifold at distance h the stopping "
+    "rule allows sqrt(2e-7*h*max(h, 1)) along the manifold (measured worst 52 % of that): 10x that is added",
+    "a polyline can have two equally close points next to a corner: a reported point on the curve that is as close as "
+    "the reference closest point (within the same tolerance) is accepted and labelled closest-point-tie",
     "position for given parameters: 1e-9*(scale + |position|) from the declared point (float noise only)",
     "off-manifold offsets stay below the reach of the curved manifolds (|c| <= 0.5, radius >= 0.6 scale, offset <= "
     "0.4 scale) so the closest point is unique",
@@ -42,7 +45,8 @@ ASSUMPTIONS = [
     "links are given float arrays (as the optimizer does), never integer arrays",
 ]
 
-TOL_CREATE_ABS, TOL_CREATE_REL = 1e-3, 1e-2
+TOL_CREATE_ABS, TOL_CREATE_REL = 1e-3, 1e-2  # surface clamps: two bounded parameters, the minimiser can stall
+TOL_CREATE_1D = 1e-5  # (abs, and rel to scale) line / plane / curve clamps: measured worst 1e-7*scale in 25 000 creations
 TOL_PARAM = 1e-9
 TOL_LINK = 1e-9
 TOL_ROT = 1e-6
@@ -105,27 +109,32 @@ def check_clamp(case, ctx: Ctx) -> None:
     pos = np.array(clamp.position, dtype=float)
 
     # a freshly created clamp reports its creation position / the closest point of the constraint
-    tol = TOL_CREATE_ABS + TOL_CREATE_REL * s
+    if kind == "surface":
+        tol = TOL_CREATE_ABS + TOL_CREATE_REL * s
+    else:
+        tol = TOL_CREATE_1D * (1.0 + s)
     want = p if off is None else man.closest(p)
     if want is not None:
         if off is not None:
             h = float(np.linalg.norm(np.asarray(want) - p))
             tol += 10 * math.sqrt(2e-7 * h * max(h, 1.0))
         err = float(np.linalg.norm(pos - want))
-        if not err <= tol:
+        tie = False
+        if not err <= tol and kind == "polyline" and off is not None:
+            # next to a corner two points of a polyline can be equally close: accept another point of the curve that
+            # is as close as the reference one (distance compared tightly: it is second-order in the position)
+            tie = man.residual(pos) <= tol and float(np.linalg.norm(pos - p)) <= float(np.linalg.norm(want - p)) + tol
+        if not err <= tol and not tie:
+            if kind == "polyline":
+                facts["other_local_minimum"] = bool(man.is_local_foot(p, pos, tol))
             raise Violation(
                 "creation-position" if off is None else "creation-not-closest",
                 f"{kind} clamp created at {p.tolist()} reports {pos.tolist()}, expected {np.asarray(want).tolist()} "
                 f"(error {err:.3g} > {tol:.3g})",
                 error_rel=err / s, **facts,
             )
-        ctx.label("creation-error<=1e%+03d" % max(-16, math.ceil(math.log10(max(err / s, 1e-16)))))
-    else:
-        # polyline: the closest point can be non-unique next to a corner, so compare distances, not points
-        dmin = man.residual(p)
-        if man.residual(pos) > tol or float(np.linalg.norm(pos - p)) > dmin + tol:
-            raise Violation("creation-not-closest", f"{kind} clamp created at {p.tolist()} reports {pos.tolist()}: "
-                            f"distance {np.linalg.norm(pos - p):.6g}, closest {dmin:.6g}", **facts)
+        ctx.label("closest-point-tie" if tie else
+                  "creation-error<=1e%+03d" % max(-16, math.ceil(math.log10(max(err / s, 1e-16)))))
     if not np.array_equal(given, p):
         raise Violation("creation-mutates-argument", "the position passed to the clamp was modified", **facts)
 
